@@ -52,5 +52,29 @@ Definition ring_wf (g : ring) : Prop :=
   length (rb_buf g) = rb_size g /\ rb_r g < rb_size g /\ rb_w g < rb_size g /\
   (rb_empty g = true -> rb_w g = rb_r g).
 
+(* whole histories of the read side: the operations the decoders use, their observable results, and the same
+   history on the content alone (the representation Model/Stream.v works with) *)
+Inductive rop := RLen | RPeek (n : nat) | RRetr (n : nat).
+Inductive robs := OLen (n : nat) | OPeek (l : list A) | ORetr.
+
+Definition ring_step (g : ring) (o : rop) : ring * robs :=
+  match o with
+  | RLen => (g, OLen (ring_length g))
+  | RPeek n => (g, OPeek (fst (ring_peek g n) ++ snd (ring_peek g n)))
+  | RRetr n => (ring_retrieve g n, ORetr)
+  end.
+Definition content_step (c : list A) (o : rop) : list A * robs :=
+  match o with
+  | RLen => (c, OLen (length c))
+  | RPeek n => (c, OPeek (firstn n c))
+  | RRetr n => (skipn n c, ORetr)
+  end.
+Fixpoint run_ops {S} (step : S -> rop -> S * robs) (s : S) (ops : list rop) : S * list robs :=
+  match ops with
+  | [] => (s, [])
+  | o :: r => let '(s1, b) := step s o in let '(s2, bs) := run_ops step s1 r in (s2, b :: bs)
+  end.
+
 End Ring.
 Arguments ring : clear implicits.
+Arguments robs : clear implicits.
